@@ -185,6 +185,62 @@ fn c02_promote_list_to_set() {
     core::mem::forget(s);
 }
 
+static mut ARRAY_PROMOTIONS: u32 = 0;
+static mut ARRAY_PROMOTION_LG_K: u8 = 0;
+/// recorder standing in for promote_container_to_array (the replay itself is c02_promote_list_to_array*)
+fn rec_promote_to_array(_c: &Container, _t: HllType, lg_config_k: u8) -> Mode {
+    unsafe {
+        ARRAY_PROMOTIONS += 1;
+        ARRAY_PROMOTION_LG_K = lg_config_k;
+    }
+    Mode::Array8(Array8::new(4))
+}
+
+//@ props: C02 C17 C18
+//@ tier: quick
+//@ timeout: 1200
+//@ functions: hll::sketch::HllSketch::update_with_coupon
+//@ functions: hll::sketch::promote_container_to_set
+//@ stubs: promote_container_to_array -> recorder (the coupon replay into the array is c02_promote_list_to_array*)
+//@ bounds: every lg_k in 4..=21 and target type (symbolic); a history of 8 symbolic distinct coupons from the empty sketch
+//@ desc: mode life cycle as a function of lg_k: a full list goes straight to an HLL array iff lg_k < 8 and to a 2^5 set otherwise; the set is created with lg_size 5 <= lg_k - 3 (base case of the invariant lg_size <= lg_k - 3 under which c02_set_promotion_threshold_arithmetic shows that growth ends in the array promotion at 2^(lg_k-3) slots, which bounds the coupon-mode image by 8 + 4 * max(8, 3/4 * 2^(lg_k-3) + 1) bytes)
+#[kani::proof]
+#[kani::unwind(34)]
+#[kani::stub(promote_container_to_array, rec_promote_to_array)]
+fn c18_mode_life_cycle_by_lg_k() {
+    let lg_k: u8 = kani::any();
+    kani::assume(lg_k >= 4 && lg_k <= 21);
+    let t = any_type();
+    unsafe {
+        ARRAY_PROMOTIONS = 0;
+    }
+    // (a) list -> ?
+    let c = any_coupons();
+    let mut s = HllSketch::new(lg_k, t);
+    let mut i = 0;
+    while i < 8 {
+        assert!(matches!(s.mode(), Mode::List { .. }), "left list mode before the 8th distinct coupon");
+        s.update_with_coupon(c[i]);
+        i += 1;
+    }
+    let promoted = unsafe { ARRAY_PROMOTIONS };
+    if lg_k < 8 {
+        assert!(promoted == 1 && unsafe { ARRAY_PROMOTION_LG_K } == lg_k, "lg_k < 8: a full list must be promoted straight to an array of lg_k");
+    } else {
+        assert!(promoted == 0, "lg_k >= 8: a full list becomes a set first");
+        match s.mode() {
+            Mode::Set { set, hll_type } => {
+                assert!(*hll_type == t);
+                assert!(set.container().lg_size() + 3 <= lg_k as usize, "a set larger than 2^(lg_k-3) can never be promoted");
+            }
+            _ => panic!("expected set mode"),
+        }
+    }
+    kani::cover!(lg_k == 7);
+    kani::cover!(lg_k == 8);
+    core::mem::forget(s);
+}
+
 //@ props: C02 C18
 //@ tier: quick
 //@ timeout: 300
